@@ -715,7 +715,7 @@ def check_verdict(case, impl_obs, raws):
             return f"call #{j} {_show(c)} returned {str(o)[:200]}, which is not {WHAT[c[0]]}"
         if c[0] == "Q" and ("row", c[1]) in uniq:
             raw = raws[uniq[("row", c[1])]]
-            if raw not in (1, 2):
+            if raw != 1:
                 return (f"calls Q({c[1]}, k), k = 0..{tri(c[1])}, returned {str(_rows(case, impl_obs)[c[1]])[:300]}: "
                         f"c16_check says at least one entry is not {WHAT['Q']}")
             continue
